@@ -83,7 +83,8 @@ def instr_task(task):
     g = S.mk_group(dict(task, randmem=task['seed']))
     for k in range(task['n']):
         thumb = rnd.random() < 0.4
-        st, pc = S.prep(g, rnd, task, thumb, 0, k)
+        # Thumb loads / stores also inside IT blocks: an abort taken there saves the un-advanced IT state in SPSR_abt
+        st, pc = S.prep(g, rnd, task, thumb, rnd.choice([0, 0, 1, 2]) if thumb else 0, k)
         set_mpu(st, g, 1, rnd.getrandbits(1))
         probes = [p for p in random_regions(rnd, st, keep=pc) if p < 256] or [64]
         for r in list(st['R']):
